@@ -335,6 +335,9 @@ def run_special():
     for tag, blk in (
             ("label-before-call", [("label", "kc"), ("data", "db", [N(1)]), ("call", "put3", [S("kc")]), ("data", "dl", [S("kc")])]),
             ("label-before-call-in-expression", [("data", "db", [N(1)]), ("label", "kc"), ("call", "put3", [("b", "+", S("kc"), N(2))])]),
+            ("label-after-call", [("data", "db", [N(1)]), ("call", "put3", [S("kc")]), ("label", "kc"), ("data", "dl", [S("kc")])]),
+            ("label-after-call-in-expression", [("call", "put3", [("b", "+", S("kc"), N(2))]), ("data", "db", [N(1)]), ("label", "kc")]),
+            ("label-after-call-two-levels", [("block", [("data", "db", [N(2)]), ("call", "put3", [S("kc")])]), ("label", "kc")]),
             ("eq-before-call", [("eq", "kc", N(0x123456)), ("call", "put3", [S("kc")]), ("data", "dl", [S("kc")])]),
             ("label-before-call-two-levels", [("label", "kc"), ("block", [("data", "db", [N(2)]), ("call", "put3", [S("kc")])])]),
             ("label-before-call-in-named-scope", [("scope", "nsx", [("label", "kc"), ("data", "db", [N(3)]), ("call", "put3", [S("kc")])])])):
